@@ -33,8 +33,11 @@ THEOREMS = [
     'C06Regex.shape_is_cascade_partial4',
     'C06Regex.splitAux_args', 'C06Regex.split_args', 'C06Regex.func_read', 'C06Regex.funcBegin?_eq', 'C06Regex.funcScan_spec', 'C06Regex.func_rx',
     'C06Regex.function_regex', 'C06Regex.shape_is_cascade', 'C06Regex.classifyL_is_cascade', 'C06Regex.classify_is_cascade',
+    'C06Regex.splitLines_regex', 'C06Regex.rxSplit_noNL', 'C06Regex.loopL_noNL', 'C06Regex.loopL_regex', 'C06Regex.scriptLines_regex',
+    'C06Regex.scriptLines_noNL', 'C06Regex.stepLogical_eq_With', 'C06Regex.parseScript_is_regex_driven',
+    'C06Regex.parseScript_text_is_regex_driven',
 ]
-LEAN_TARGETS = ['BareProofs.C06RegexPins', 'BareProofs.C06Regex', 'BareProofs.C06Regex2', 'BareProofs.C06Regex3', 'BareProofs.C06Regex4', 'BareProofs.C06Regex5']
+LEAN_TARGETS = ['BareProofs.C06RegexPins', 'BareProofs.C06Regex', 'BareProofs.C06Regex2', 'BareProofs.C06Regex3', 'BareProofs.C06Regex4', 'BareProofs.C06Regex5', 'BareProofs.C06Regex6']
 EXTRA_TARGETS = ['drv_c06x']
 GEN = ['Regex']
 
